@@ -158,7 +158,7 @@ def generalize : Ty → Ty
   | .regexp _ => .regexp ""
   | .tspan _ => .tspan Rng.all
   | .object _ => .object none
-  | .array e _ => if (match e with | .any => true | _ => false) then .array .any Rng.pos else .array (generalize e) Rng.pos
+  | .array e _ => if e.isAny then .array .any Rng.pos else .array (generalize e) Rng.pos
   | .bool _ => .bool none
   | .coll _ => .coll Rng.pos
   | .enum _ _ => .enum [] false
@@ -176,7 +176,7 @@ def generalize : Ty → Ty
   | t => t
 /-- `px.GenericType` -/
 def genericType : Ty → Ty
-  | .array e _ => if (match e with | .any => true | _ => false) then .array .any Rng.pos else .array (generalize e) Rng.pos
+  | .array e _ => if e.isAny then .array .any Rng.pos else .array (generalize e) Rng.pos
   | .bool _ => .bool none
   | .coll _ => .coll Rng.pos
   | .enum _ _ => .enum [] false
